@@ -225,3 +225,25 @@ Definition c16_mask_forms (dx dy east north : list D) (obs_arr obs_grid : list (
                     (map (fun r => combine (fst r) (snd r)) (combine cls model)) obs_arr in
   let holds := ok_rows obs_arr && ok_rows obs_grid && rows_eqb obs_arr obs_grid && dims_ok in
   mk_verdict_tie (negb (existsb (existsb decisive) cls)) agree holds.
+
+(** ** case: convexhull_mask with a projection.  The callable is an oracle: the
+    harness logs what it was given ([ldx ldy] for the data call, [lqx lqy] for the
+    query call) and what it returned ([pdx pdy], [pqx pqy]).  The code must hand
+    it exactly the data and ALL the query coordinates (bit-exact, in order); the
+    mask is then the hull test on the PROJECTED points.  For an integer-linear
+    projection (a b / c d) the logged outputs are re-computed exactly. *)
+Definition lin_ok (l : D * D * D * D) (xs ys pxs pys : list D) : bool :=
+  let '(a, b, c, d) := l in
+  all2 (fun xy p => deq (dadd (dmul a (fst xy)) (dmul b (snd xy))) p) (combine xs ys) pxs &&
+  all2 (fun xy p => deq (dadd (dmul c (fst xy)) (dmul d (snd xy))) p) (combine xs ys) pys.
+
+Definition c16_mask_proj (lin : option (D * D * D * D)) (dx dy qx qy ldx ldy lqx lqy pdx pdy pqx pqy : list D)
+    (obs : list bool) : verdict :=
+  let logged := list_eqb deq dx ldx && list_eqb deq dy ldy && list_eqb deq qx lqx && list_eqb deq qy lqy &&
+                (length pdx =? length dx)%nat && (length pdy =? length dx)%nat &&
+                (length pqx =? length qx)%nat && (length pqy =? length qx)%nat in
+  let linear := match lin with
+                | Some l => lin_ok l dx dy pdx pdy && lin_ok l qx qy pqx pqy
+                | None => true
+                end in
+  if logged && linear then c16_mask pdx pdy pqx pqy obs else Vboth.
